@@ -241,7 +241,7 @@ func respell(t *rapid.T, d decOperand) (string, *big.Rat) {
 func TestC05Random(t *testing.T) {
 	run := h.Begin("C05", "random", "rapid: pairs of random decimals (C04 operand generator) each re-spelled at random (plain, exponent, shifted exponent, leading/trailing zeros, arithmetic identity), pairs that differ only in the last of 34 digits or are equal, and pairs of random byte strings (shared prefixes, invalid UTF-8); same oracle as the grid; non-trivial as in the grid; distinct by the pair of texts")
 	defer run.End(t)
-	h.RapidSetup(h.N(8000, 600000), "c05rand")
+	h.RapidSetup(h.N(8000, 3000000), "c05rand")
 	rapid.Check(t, func(rt *rapid.T) {
 		var c cmpCase
 		switch rapid.IntRange(0, 3).Draw(rt, "form") {
